@@ -69,7 +69,7 @@ def generate(work, tier, seed):
 
 def drive(binary, cases, trace, seed, tier, concrete=False, extra=None):
     args = ["-cases", cases, "-trace", trace, "-seed", seed,
-            "-service", 40 if tier == "quick" else 400]
+            "-service", 40 if tier == "quick" else 1500, "-rounds", 1 if tier == "quick" else 5]
     if concrete:
         args.append("-concrete")
     out = run_driver(binary, args + (extra or []), timeout=1200).strip()
